@@ -1,0 +1,33 @@
+//go:build verif
+
+// Contracts for the govc verifier (see /verif/DESIGN.md). Comment-only.
+
+package routing
+
+// ---- IdKeeper (C14): sequence numbers per (source, creation time) ----
+
+// govc:func newIdTuple property C14
+//@ opt inline true
+//@ requires bndl != nil
+//@ assigns nothing
+//@ ensures result.source == bndl.PrimaryBlock.SourceNode && uint64(result.time) == bndl.PrimaryBlock.CreationTimestamp[0]
+
+// update: a tracked tuple gets the successor of its last number, an untracked one starts at 0; the number written into
+// the bundle is the one remembered for the tuple.
+// govc:func (*IdKeeper).update property C14
+//@ requires bndl != nil && idk.data != nil
+//@ requires has(idk.data, newIdTuple(bndl)) ==> idk.data[newIdTuple(bndl)] < 18446744073709551615
+//@ ensures bndl.PrimaryBlock.CreationTimestamp[1] == (old(has(idk.data, newIdTuple(bndl))) ? old(idk.data[newIdTuple(bndl)]) + 1 : 0)
+//@ ensures bndl.PrimaryBlock.CreationTimestamp[0] == old(bndl.PrimaryBlock.CreationTimestamp[0]) && bndl.PrimaryBlock.SourceNode == old(bndl.PrimaryBlock.SourceNode)
+//@ ensures has(idk.data, old(newIdTuple(bndl))) ==> idk.data[old(newIdTuple(bndl))] == bndl.PrimaryBlock.CreationTimestamp[1]
+//@ ensures old(bndl.PrimaryBlock.CreationTimestamp[0]) == 0 ==> has(idk.data, old(newIdTuple(bndl)))
+
+// clean never forgets a clock-less (time 0) entry and never changes a counter.
+// govc:func (*IdKeeper).clean property C14
+//@ requires idk.data != nil
+//@ ghost k idTuple
+//@ assigns mapof(idk.data)
+//@ ensures old(has(idk.data, k)) && k.time == 0 ==> has(idk.data, k)
+//@ ensures has(idk.data, k) ==> old(has(idk.data, k)) && idk.data[k] == old(idk.data[k])
+//@ loop 0 invariant has(idk.data, k) ==> old(has(idk.data, k)) && idk.data[k] == old(idk.data[k])
+//@ loop 0 invariant old(has(idk.data, k)) && k.time == 0 ==> has(idk.data, k)
